@@ -507,8 +507,32 @@ impl<'o, 'ast> Visit<'ast> for TableVisitor<'o> {
                 "arm",
                 &format!("{} @@ {} @@ {} @@ {}", key, ts(&arm.pat), guard, ts(&arm.body)),
             );
+            if !arm.attrs.is_empty() {
+                let attrs: Vec<String> = arm.attrs.iter().map(|a| ts(a)).collect();
+                self.o.put("armattrs", &format!("{} @@ {} @@ {}", key, ts(&arm.pat), attrs.join(" ;; ")));
+            }
         }
         syn::visit::visit_expr_match(self, m);
+    }
+    fn visit_item_struct(&mut self, i: &'ast syn::ItemStruct) {
+        // struct definitions with their attributes (serde description of run-time library types)
+        let key = format!("{}::{}", self.file, i.ident);
+        let attrs: Vec<String> = i.attrs.iter().filter(|a| !a.path().is_ident("doc")).map(|a| ts(a)).collect();
+        self.o.put("structdef", &format!("{} @@ {} @@ {}", key, generics_str(&i.generics), attrs.join(" ;; ")));
+        for (n, f) in i.fields.iter().enumerate() {
+            let fname = f.ident.as_ref().map(|x| x.to_string()).unwrap_or_else(|| n.to_string());
+            let fattrs: Vec<String> = f.attrs.iter().filter(|a| !a.path().is_ident("doc")).map(|a| ts(a)).collect();
+            self.o.put("structfield", &format!("{} @@ {} @@ {} @@ {}", key, fname, ts(&f.ty), fattrs.join(" ;; ")));
+        }
+        syn::visit::visit_item_struct(self, i);
+    }
+    fn visit_expr_struct(&mut self, e: &'ast syn::ExprStruct) {
+        // struct literals inside functions: `Path { f: expr, .., ..rest }`
+        let key = format!("{}::{}", self.file, self.ctx.join("::"));
+        let fields: Vec<String> = e.fields.iter().map(|f| format!("{}={}", ts(&f.member), ts(&f.expr))).collect();
+        let rest = e.rest.as_ref().map(|r| ts(r)).unwrap_or_default();
+        self.o.put("structlit", &format!("{} @@ {} @@ {} @@ {}", key, ts(&e.path), fields.join(" ;; "), rest));
+        syn::visit::visit_expr_struct(self, e);
     }
     fn visit_macro(&mut self, m: &'ast syn::Macro) {
         let name = m.path.segments.last().map(|s| s.ident.to_string()).unwrap_or_default();
